@@ -469,7 +469,8 @@ macro_rules! impl_nio_read_buf {
                 let start_time = $crate::common::now();
                 let mut left_time = $crate::syscall::recv_time_limit($fd);
                 let mut received = 0;
-                let mut r = -1;
+                // a zero-length request moves nothing and is not an error
+                let mut r = if $len == 0 { 0 } else { -1 };
                 while received < $len && left_time > 0 {
                     r = self.inner.$syscall(
                         fn_ptr,
@@ -488,6 +489,10 @@ macro_rules! impl_nio_read_buf {
                     }
                     let error_kind = std::io::Error::last_os_error().kind();
                     if error_kind == std::io::ErrorKind::WouldBlock {
+                        if !blocking {
+                            // the caller made the descriptor non-blocking: report EAGAIN, do not wait
+                            break;
+                        }
                         //wait read event
                         left_time = start_time
                             .saturating_add($crate::syscall::recv_time_limit($fd))
@@ -498,12 +503,16 @@ macro_rules! impl_nio_read_buf {
                             $fd,
                             Some(wait_time)
                         ).is_err() {
-                            r = received.try_into().expect("received overflow");
                             break;
                         }
                     } else if error_kind != std::io::ErrorKind::Interrupted {
                         break;
                     }
+                }
+                if r == -1 && received > 0 {
+                    // bytes were moved before the failure: report them, not the failure
+                    $crate::syscall::reset_errno();
+                    r = received.try_into().expect("received overflow");
                 }
                 if blocking {
                     $crate::syscall::set_blocking($fd);
@@ -694,7 +703,8 @@ macro_rules! impl_nio_write_buf {
                 let start_time = $crate::common::now();
                 let mut left_time = $crate::syscall::send_time_limit($fd);
                 let mut sent = 0;
-                let mut r = -1;
+                // a zero-length request moves nothing and is not an error
+                let mut r = if $len == 0 { 0 } else { -1 };
                 while sent < $len && left_time > 0 {
                     r = self.inner.$syscall(
                         fn_ptr,
@@ -713,6 +723,10 @@ macro_rules! impl_nio_write_buf {
                     }
                     let error_kind = std::io::Error::last_os_error().kind();
                     if error_kind == std::io::ErrorKind::WouldBlock {
+                        if !blocking {
+                            // the caller made the descriptor non-blocking: report EAGAIN, do not wait
+                            break;
+                        }
                         //wait write event
                         left_time = start_time
                             .saturating_add($crate::syscall::send_time_limit($fd))
@@ -723,12 +737,16 @@ macro_rules! impl_nio_write_buf {
                             $fd,
                             Some(wait_time),
                         ).is_err() {
-                            r = sent.try_into().expect("sent overflow");
                             break;
                         }
                     } else if error_kind != std::io::ErrorKind::Interrupted {
                         break;
                     }
+                }
+                if r == -1 && sent > 0 {
+                    // bytes were moved before the failure: report them, not the failure
+                    $crate::syscall::reset_errno();
+                    r = sent.try_into().expect("sent overflow");
                 }
                 if blocking {
                     $crate::syscall::set_blocking($fd);
